@@ -116,6 +116,8 @@ class PathEnum:
                 return T('tuple', ops)
             if k['a'] == 'adt':
                 return T('adt', k['adt'], k['variant'], ops)
+            if k['a'] == 'closure':
+                return T('closure', k.get('def', ''), ops)
             return T('agg', k['a'], ops)
         return T('unknown')
 
@@ -195,7 +197,7 @@ class PathEnum:
         if re.search(r'clone::Clone::clone$|ops::Deref::deref$', d) and args:
             return deref(args[0])
         res = t['callee'].get('resolved') or ''
-        if res not in self.F.fns:
+        if res not in self.F.fns and re.search(r'convert::(Into::into|TryInto::try_into)$', d):
             tg = self.F.call_targets(self.fn, t)
             if len(tg) == 1:
                 res = next(iter(tg))     # std trampoline with a unique local target (e.g. Into::into -> From::from)
@@ -367,8 +369,9 @@ def show(t, depth=0):
 
 # ---------------------------------------------------------------- term queries
 def subterms(t):
-    if isinstance(t, tuple):
-        yield t
+    if isinstance(t, tuple) and t:
+        if isinstance(t[0], str):
+            yield t
         for x in t:
             if isinstance(x, tuple):
                 for y in subterms(x):
